@@ -5,6 +5,11 @@ Sub-claims checked on the real code (oracle):
   chunking      concat(get_series(n) for n in ns) is identical to get_series(sum(ns)), for request sequences with zeros
                 and ones anywhere, and the two streams REMAIN identical on a further request (state carried exactly)
   get_sample    k calls of get_sample() are the first k samples of get_series on a same-seed instance (across the 4096 buffer)
+  long/hist     call histories with LONG requests: every block / chunk / buffer size constant c read from the CURRENT source of noise.py
+                (C.mined_sizes) is straddled ([c-1,1,5], [c,3], [c+1,2], [c+37,100], [2c+3,7], long then short then get_sample calls, a fine
+                partition against the single long request, two long requests, a running total crossing c), plus long requests that do not
+                depend on the miner (70001; 1060921 then 250; random 70000..1200000; 2097157 / 4194311 in the thorough tier), all four classes,
+                with and without init_filter: same-seed, chunking == single request, and what is asked NEXT is the continuation
   cascade       _numba_lfilter_cascade = direct-form reference y[n] = a0 x[n] + a1 x[n-1] - b1 y[n-1] (initial state folded in),
                 = scipy.signal.lfilter section by section, final states included, and split blocks carry the state exactly
   stream-ref    a generator's blocks are scaling * reference cascade of (rms * the standard-normal stream of its own RNG)
@@ -69,10 +74,16 @@ ASSUMPTIONS = [
     "the direct-form identity is proved over the reals, rounding is covered by the stated running forward bound",
     "get_sample: the translated method of every class is proved equal to Model.getSample; the closed form `k calls = first k stream "
     "samples` is proved for the white generator (gen_white_sample_runs) and checked on the real code for the coloured ones",
-    "interleaving get_sample with get_series is not specified by the property (get_sample prefetches 4096 samples) and is not asserted",
+    "get_series AFTER get_sample is not specified by the property (get_sample prefetches 4096 samples) and is not asserted; a run of "
+    "get_sample calls after get_series requests (prefetch buffer still empty) IS asserted to be the continuation of the stream",
+    "size thresholds: the oracle straddles the integer constants the miner reads from noise.py (literals and + - * // ** << of literals, up "
+    "to 4e6) and always makes requests of 70001 and 1060921 samples (2097157, 4194311 in the thorough tier / when an obligation broke); a "
+    "threshold above ~4.2e6 samples written in a form the miner does not read is not reached",
 ]
 RULE = ("cases = (generator class in {white, red, alpha (alpha in [0.01,2] incl. end points), pink}, parameters, seed, init_filter, "
         "request sequence drawn from {0,1,2,3,7,64,4095,4096,4097,random} with zeros at start/middle/end/repeated, follow-up request); "
+        "long-request histories = (class, init_filter, ops straddling every size constant mined from the current noise.py and fixed long sizes "
+        "70001 / 1060921 / random, optionally ending in a get_sample run, follow-up of the same kind); "
         "cascade cases = (1..14 sections, designed or random coefficients, random states, block sizes incl. 0 and 1, split point); "
         "distinct by (check, class, init_filter, request tuple / (sections, block, split)); non-trivial = at least two requests of which one "
         "is non-empty (chunking), k >= 2 (get_sample), a non-empty block (cascade), and a stream that is not constant")
@@ -494,7 +505,258 @@ def check_stream(P: C.Part, payload: Dict[str, Any]) -> None:
         P.nontrivial.add(("stream", kind, tuple(ns)))
 
 
-CHECKS = {"chunk": check_chunk, "sample": check_sample, "cascade": check_cascade, "stream": check_stream}
+# ------------------------------------------------------------------------------------------------ call histories with LONG requests
+# Size thresholds: a get_series / get_sample implementation may switch to another code path above some block / chunk / buffer size (memory-
+# bounding block-wise generation, a larger prefetch buffer, chunked settling ...).  "For all request sizes" then has a region that request sizes
+# up to ~4097 never enter (wave-5 change C17e: requests > 1 << 20 generated block-wise, every block drawn at the full block size, so whatever
+# is requested AFTER a long request is not the continuation).  The constants are read from the CURRENT source (C.mined_sizes) and every one is
+# straddled; independent of what the miner sees, a few long requests are made on every run.
+NOISE_FILES = ["speckit/noise.py"]
+GEN_NAMES = ["white_noise", "_base_colored_noise", "red_noise", "alpha_noise", "pink_noise", "_numba_lfilter_cascade"]
+FINE = 997            # piece size of the "fine partition" (below every threshold worth having)
+LONG_FROM = 20000     # mined constants above this are costly to straddle: their cases are budgeted
+BUF = 4096            # the get_sample prefetch size of the unchanged library (always probed, whatever the miner finds)
+# (kind, alpha exponent or None / "rand")
+VARIANTS = [("white", None), ("red", None), ("alpha", 0.01), ("alpha", 2.0), ("alpha", "rand"), ("pink", None)]
+VARIANTS_MORE = [("alpha", 1.0), ("alpha", 0.5), ("alpha", 1.5)]
+
+
+def mined_constants() -> Tuple[List[int], List[int]]:
+    """(constants found inside the generator classes / the cascade kernel, all constants of noise.py incl. module level) from the current source"""
+    try:
+        allc = [int(c) for c in C.mined_sizes(NOISE_FILES)]
+    except Exception:
+        allc = []
+    try:
+        inner = [int(c) for c in C.mined_sizes(NOISE_FILES, names=GEN_NAMES)]
+    except Exception:
+        inner = []
+    return [c for c in inner if c in allc], allc
+
+
+def expand_ops(ops) -> List[Tuple[str, int]]:
+    """ops = [[op, n] or [op, n, repeat], ...] with op 's' = get_series(n), 'g' = n calls of get_sample()"""
+    out: List[Tuple[str, int]] = []
+    for op in ops:
+        rep = int(op[2]) if len(op) > 2 else 1
+        out.extend([(str(op[0]), int(op[1]))] * max(rep, 0))
+    return out
+
+
+def ops_total(ops) -> int:
+    return int(sum(n for _, n in expand_ops(ops)))
+
+
+def ops_text(ops) -> str:
+    return "[" + ", ".join((f"{int(op[1])}" if op[0] == "s" else f"get_sample x{int(op[1])}") + (f" (x{int(op[2])})" if len(op) > 2 else "") for op in ops) + "]"
+
+
+def take(g, o: str, n: int) -> np.ndarray:
+    if o == "s":
+        return np.asarray(g.get_series(n))
+    return np.array([float(g.get_sample()) for _ in range(n)], dtype=np.float64)
+
+
+def check_hist(P: C.Part, payload: Dict[str, Any]) -> None:
+    """a call history  get_series(n1), ..., get_series(nm) [, then a run of get_sample() calls]  against ONE get_series(total) of a same-seed
+    instance, against a second same-seed instance given the same history, and the streams must remain identical on what is asked NEXT (a
+    further get_series, or - when the history ends in get_sample calls - further get_sample calls).  Bit-for-bit: same operations on every
+    sample.  get_sample calls only at the END of a history (get_series after get_sample is not specified: get_sample prefetches)."""
+    spec, follow = payload["spec"], int(payload.get("follow", 7))
+    raw = payload["ops"]
+    ops = expand_ops(raw)
+    kind = spec["kind"]
+    init = bool(spec["kw"].get("init_filter", False))
+    tag = f"{kind}{spec['kw']} seed={spec['seed']}"
+    seen_g = False
+    for o, _ in ops:
+        if o == "g":
+            seen_g = True
+        elif seen_g:
+            P.notes.append("hist case with get_series after get_sample skipped (not specified)")
+            return
+    ns = [n for o, n in ops if o == "s"]
+    total = int(sum(n for _, n in ops))
+    longest = max(ns + [0])
+    txt = ops_text(raw)
+    g1, g2, g3 = build(spec), build(spec), build(spec)
+    P.cases += 1
+    P.hit(f"hist:{kind}")
+    P.hit("hist:init_filter" if init else "hist:no_init")
+    P.hit(f"hist:family:{payload.get('family', '?')}")
+    if payload.get("const") is not None:
+        P.hit(f"hist:straddles_mined_constant:{int(payload['const'])}")
+    P.hit("hist:longest_request:" + (">2^20" if longest > (1 << 20) else ">65536" if longest > 65536 else ">4097" if longest > 4097 else "<=4097"))
+    if seen_g:
+        P.hit("hist:ends_in_get_sample")
+    sig = {"class": kind, "init_filter": init, "long_request": longest > LONG_FROM, "get_sample_tail": seen_g}
+    extra = {"check": "hist"}
+    parts = [take(g1, o, n) for o, n in ops]
+    for i, ((o, n), p) in enumerate(zip(ops, parts)):
+        if p.ndim != 1 or p.shape[0] != n:
+            viol(P, f"{tag}: {'get_series' if o == 's' else 'get_sample run'}({n}) (call {i} of {txt}) returned shape {p.shape}, not ({n},)",
+                 dict(sig, subclaim="length", zero_request=n == 0), payload, extra)
+            return
+    for i, (o, n) in enumerate(ops):           # same seed, same history -> same blocks
+        q = take(g3, o, n)
+        if not same(parts[i], q):
+            viol(P, f"{tag}: two same-seed instances differ on call {i} of {txt}: {first_diff(parts[i], q)}",
+                 dict(sig, subclaim="same-seed"), payload, extra)
+            return
+        del q
+    whole = np.asarray(g2.get_series(total))
+    if whole.ndim != 1 or whole.shape[0] != total:
+        viol(P, f"{tag}: get_series({total}) returned shape {whole.shape}", dict(sig, subclaim="length", zero_request=total == 0), payload, extra)
+        return
+    off = 0
+    for i, ((o, n), p) in enumerate(zip(ops, parts)):
+        if not same(np.asarray(p, dtype=np.float64), whole[off:off + n]):
+            d = first_diff(cat(parts), whole)
+            viol(P, f"{tag}: calls {txt} concatenated differ from get_series({total}) (call {i} starts at sample {off}): {d}",
+                 dict(sig, subclaim="chunking", zero_request=0 in ns), payload, extra)
+            return
+        off += n
+    nontrivial = len(ops) >= 2 and total >= 2 and float(np.ptp(whole)) > 0.0
+    del parts, whole
+    fo = "g" if seen_g else "s"
+    f1, f3 = take(g1, fo, follow), take(g3, fo, follow)
+    f2 = np.asarray(g2.get_series(follow))
+    nxt = f"the NEXT {'get_series(' + str(follow) + ')' if fo == 's' else str(follow) + ' get_sample() calls'}"
+    if not same(f1, f2):
+        viol(P, f"{tag}: after calls {txt} vs one request of {total}, {nxt} differ from get_series({follow}) of the single-request instance "
+                f"(the stream position / filter state after the calls is not that of the stream): {first_diff(f1, f2)}",
+             dict(sig, subclaim="chunking-follow-up", zero_request=0 in ns), payload, extra)
+        return
+    if not same(f1, f3):
+        viol(P, f"{tag}: two same-seed instances differ on {nxt} after {txt}: {first_diff(f1, f3)}", dict(sig, subclaim="same-seed"), payload, extra)
+        return
+    if nontrivial:
+        P.nontrivial.add(("hist", kind, init, tuple(tuple(op) for op in raw), follow))
+
+
+def hist_spec(rng: np.random.Generator, kind: str, init: bool, alpha=None) -> Dict[str, Any]:
+    """parameters for the long-request histories: as gen_spec, the cascade classes with at most ~8 sections (cost per sample ~ sections)"""
+    spec = gen_spec(rng, kind, init)
+    if kind in ("alpha", "pink"):
+        kw = spec["kw"]
+        kw["f_min"] = float(kw["f_max"] * 10 ** (-float(rng.uniform(0.3, 1.7))))
+        if kind == "alpha" and alpha is not None and alpha != "rand":
+            kw["alpha"] = float(alpha)
+        elif kind == "alpha" and alpha == "rand":
+            kw["alpha"] = float(rng.uniform(0.01, 2.0))
+    return spec
+
+
+def straddle_families(c: int, rng: np.random.Generator) -> List[Tuple[str, int, List[List[Any]], int]]:
+    """(family, priority, ops, follow-up length) around a size constant c: the request just below / at / just above / well above / above twice c,
+    a long request FOLLOWED by short ones and by get_sample calls, a long request that is not the first, a fine partition against the single
+    long request, two long requests, and a running total that crosses c without any single request above it"""
+    r = int(rng.integers(2, 90))
+    q, rem = divmod(c + 41, FINE)
+    return [
+        ("above,then-short", 0, [["s", c + 37], ["s", 100]], 7),
+        ("below,then-short(single request above)", 0, [["s", c - 1], ["s", 1], ["s", 5]], 7),
+        ("above+1", 1, [["s", c + 1], ["s", 2]], 64),
+        ("at", 1, [["s", c], ["s", 3]], 2),
+        ("twice", 1, [["s", 2 * c + 3], ["s", 7]], 1),
+        ("above,short,get_sample", 1, [["s", c + 37], ["s", 0], ["s", 1], ["g", BUF + 1]], 5),
+        ("short,above,get_sample", 2, [["s", 5], ["s", c + 1], ["g", 3]], BUF + 4),
+        ("fine-partition-vs-single", 2, [["s", FINE, q], ["s", rem]], 64),
+        ("above+random", 2, [["s", c + r], ["s", 0], ["s", r]], 500),
+        ("two-long", 3, [["s", c + 1], ["s", c + 2], ["s", 1]], 7),
+        ("running-total-crosses", 3, [["s", c // 3 + 1, 3], ["s", 2]], 7),
+        ("get_sample-run-across", 3, [["s", 1], ["g", min(c + 2, 5 * BUF + 3)]], 3),
+    ]
+
+
+def hist_cases(ctx, rng: np.random.Generator, intensive: bool) -> Tuple[List[Dict[str, Any]], List[str]]:
+    """the long-request / size-threshold stream, in the order it is run (cheap first, then by priority; the runner of this list stops at its
+    time budget).  Quick tier: at most ~3.3 million samples per case; thorough / intensive: ~9 million and every family for every class."""
+    deep = bool(intensive or ctx.thorough)
+    cap = 9_000_000 if deep else 3_300_000
+    inner, allc = mined_constants()
+    cheap = sorted(set([c for c in allc if c <= LONG_FROM] + [BUF]))
+    costly = sorted([c for c in allc if c > LONG_FROM], key=lambda c: (c not in inner, c))
+    variants = VARIANTS + (VARIANTS_MORE if ctx.thorough else [])
+    four = [("white", None), ("red", None), ("alpha", "rand"), ("pink", None)]
+    cnt = [0]
+    skipped: List[str] = []     # families not run because of the per-case sample cap (reported in the notes)
+
+    def mk(kind, alpha, ops, follow, family, const=None, prio=0, init=None):
+        cnt[0] += 1
+        ini = bool(cnt[0] % 2) if init is None else bool(init)
+        return (prio, {"check": "hist", "spec": hist_spec(rng, kind, ini and kind != "white", alpha), "ops": ops, "follow": int(follow),
+                       "family": family, "const": const})
+    out: List[Tuple[int, Dict[str, Any]]] = []
+    # (1a) cheap mined constants (the 4096 buffer, NumPy-ish chunk sizes): every family, every class variant
+    for c in cheap:
+        for fam, _, ops, follow in straddle_families(c, rng):
+            for kind, al in variants:
+                out.append(mk(kind, al, ops, follow, fam, c, prio=0))
+                if ctx.thorough and kind != "white":
+                    out.append(mk(kind, al, ops, follow, fam, c, prio=0, init=not out[-1][1]["spec"]["kw"].get("init_filter", False)))
+    # (3) get_sample across the buffer boundary several times, after settling (init_filter) and without; buffer sizes from the source + 4096
+    for b in cheap:
+        for j, (kind, al) in enumerate(variants):
+            ks = [3 * b + 1, 4 * b, 5 * b - 1, 5 * b + 1, 2 * b + int(rng.integers(2, b)), 6 * b + int(rng.integers(0, 3))]
+            pick = [ks[j % len(ks)], int(rng.choice(ks))] if not deep else ks
+            for k in sorted(set(pick)):
+                cnt[0] += 1
+                out.append((0, {"check": "sample", "spec": hist_spec(rng, kind, bool(cnt[0] % 2) and kind != "white", al), "k": int(k)}))
+            n0 = int(rng.choice([1, b - 1, b, b + 1, 3 * b + 2]))
+            out.append(mk(kind, al, [["s", n0], ["g", 3 * b + 2]], 2 * b + 1, "series,then-get_sample-across-buffers", b, prio=0))
+    # a long settling run (longer than the buffer / the cheap constants) before the first request
+    for j, b in enumerate(cheap):
+        tgt = int(b * int(rng.integers(2, 6)) + int(rng.integers(1, 50)))
+        fs = float(rng.choice([1.0, 100.0, 1000.0]))
+        spec = {"kind": "red", "seed": int(rng.integers(0, 2 ** 31)), "kw": {"f_sample": fs, "f_min": float(2.0 * fs / (tgt - 0.5)), "init_filter": True}}
+        out.append((0, {"check": "hist", "spec": spec, "ops": [["s", b + 1], ["s", 0], ["g", b + 2]], "follow": b, "family": "long-settle", "const": b}))
+        out.append((0, {"check": "sample", "spec": spec, "k": 3 * b + 1}))
+    # (2) long requests whatever the miner sees (a threshold may be written in a form it does not read: int(1e6), a computed size ...)
+    for kind, al in variants:
+        out.append(mk(kind, al, [["s", 70001], ["s", 250]], 7, "long:70001", prio=0))
+    for kind, al in four:
+        out.append(mk(kind, al, [["s", 33], ["s", 70001], ["g", BUF + 3]], 3, "long:70001,get_sample", prio=0))
+        out.append(mk(kind, al, [["s", 1060921], ["s", 250]], 7, "long:1060921", prio=0))
+    rot = int(rng.integers(0, 4))
+    for j, (kind, al) in enumerate(four):
+        n = int(rng.integers(70000, 1_200_000))
+        s = int(rng.choice([1, 2, 7, 64, 250, int(rng.integers(1, 5000))]))
+        if deep or j in (rot, (rot + 1) % 4):
+            out.append(mk(kind, al, [["s", n], ["s", s]], int(rng.choice([1, 7, 500])), "long:random", prio=1))
+        if deep or j in ((rot + 2) % 4, (rot + 3) % 4):
+            out.append(mk(kind, al, [["s", 1060921], ["s", 1], ["s", 0], ["g", 250]], BUF + 1, "long:1060921,get_sample", prio=1))
+    # wave-5 witnesses of C17e (demo.py of the stored change)
+    a15 = {"kind": "alpha", "seed": 20240917, "kw": {"f_sample": 1000.0, "f_min": 5.0, "f_max": 400.0, "alpha": 1.5, "init_filter": True}}
+    pk = {"kind": "pink", "seed": 20240917, "kw": {"f_sample": 1000.0, "f_min": 5.0, "f_max": 400.0, "init_filter": True}}
+    out.append((1, {"check": "hist", "spec": a15, "ops": [["s", 1060921], ["s", 1], ["s", 0], ["s", 250], ["s", 1000]], "follow": 7, "family": "witness:C17e"}))
+    out.append((1, {"check": "hist", "spec": pk, "ops": [["s", 17], ["s", 2097155], ["s", 64]], "follow": 7, "family": "witness:C17e"}))
+    if deep:
+        for kind, al in four:
+            out.append(mk(kind, al, [["s", 2097157], ["s", 1], ["s", 250]], 7, "long:2097157", prio=2))
+            out.append(mk(kind, al, [["s", 4194311], ["s", 5]], 64, "long:4194311", prio=3))
+    # (1b) costly mined constants: the two most discriminating families for every class first, the others rotated over the classes
+    #      (quick) or for every class (thorough / intensive)
+    for c in costly:
+        for fi, (fam, prio, ops, follow) in enumerate(straddle_families(c, rng)):
+            if ops_total(ops) + follow > cap:
+                skipped.append(f"{fam}@{c}")
+                continue
+            if prio == 0 or deep:
+                kinds = list(four) + ([("alpha", 0.01), ("alpha", 2.0)] if ctx.thorough else [])
+            elif prio <= 2:
+                kinds = [four[(fi + rot) % 4]]
+            else:
+                kinds = []
+            for kind, al in kinds:
+                out.append(mk(kind, al, ops, follow, fam, c, prio=prio + 1))
+                if ctx.thorough and kind != "white" and prio <= 1:
+                    out.append(mk(kind, al, ops, follow, fam, c, prio=prio + 1, init=not out[-1][1]["spec"]["kw"].get("init_filter", False)))
+    out.sort(key=lambda t: t[0])      # stable: cheap / unconditional first, then by priority (round-robin over the constants)
+    return [p for _, p in out], skipped
+
+
+CHECKS = {"chunk": check_chunk, "sample": check_sample, "cascade": check_cascade, "stream": check_stream, "hist": check_hist}
 
 
 def run_payload(P: C.Part, payload: Dict[str, Any]) -> None:
@@ -576,7 +838,35 @@ def oracle(ctx, intensive: bool = False, hints: List[Dict[str, Any]] = ()) -> C.
         gen.append({"check": "stream", "spec": gen_spec(rng, KINDS[i % 4], i % 2 == 0), "ns": ns})
     # interleave the four kinds of check so that an early stop still covers all of them
     order = rng.permutation(len(gen))
-    todo.extend(gen[int(j)] for j in order)
+    # long requests / size thresholds read from the current source: run right after the corpus under their own time budget, so that neither
+    # they nor the random stream starve each other (own random stream: the other cases do not depend on what the miner finds)
+    import time as _time
+    sub = np.random.default_rng(int(rng.integers(0, 2 ** 62)))
+    longs, skipped = hist_cases(ctx, sub, intensive)
+    long_budget = 240.0 if ctx.thorough else 45.0 if intensive else 15.0
+    inner, allc = mined_constants()
+    P.notes.append(f"size constants mined from {NOISE_FILES[0]}: {allc} (inside the generator classes: {inner})")
+    for i, p in enumerate(todo):
+        if len(P.violations) >= 5:
+            break
+        run_payload(P, p)
+        if i < 4 and p["check"] != "cascade":
+            P.sample({"op": "oracle", "check": p["check"], "spec": p["spec"], "requests": p.get("ns", p.get("k"))})
+    done_long = 0
+    t_long = _time.time()
+    for i, p in enumerate(longs):
+        if len(P.violations) >= 5:
+            break
+        if _time.time() - t_long > long_budget or ctx.time_left() < 25:
+            P.notes.append(f"long-request stream: time budget reached after {i} of {len(longs)} cases")
+            break
+        run_payload(P, p)
+        done_long += 1
+        if p["check"] == "hist" and ops_total(p["ops"]) > 1_000_000 and not any(isinstance(smp, dict) and smp.get("check") == "hist" for smp in P.samples):
+            P.sample({"op": "oracle", "check": "hist", "spec": p["spec"], "requests": p["ops"], "family": p.get("family")}, cap=10)
+    P.notes.append(f"long-request stream: {done_long} of {len(longs)} cases in {_time.time() - t_long:.1f}s"
+                   + (f"; not run (per-case sample cap of this tier): {skipped}" if skipped else ""))
+    todo = [gen[int(j)] for j in order]
     for i, p in enumerate(todo):
         if ctx.time_left() < 15:
             P.notes.append(f"time budget reached after {i} of {len(todo)} cases")
@@ -833,7 +1123,17 @@ def genobj_case(P: C.Part, drv, spec: Dict[str, Any], ops: List[Tuple[str, int]]
         tol_out = 2.0 * (float(np.max(tol)) if tol.size else 0.0) + 16 * U * amp * scale_y + TINY
         zmax = float(max(np.max(np.abs(r1["z"])) if r1["z"].size else 0.0, np.max(np.abs(r0["z"])) if r0["z"].size else 0.0))
         tol_z = 2.0 * (float(np.max(tz)) if tz.size else 0.0) + 16 * U * amp * zmax + TINY
-        if not close(s0["z"], r0["z"], 0.0, 16 * U * amp * (float(np.max(np.abs(r0["z"]))) if r0["z"].size else 0.0) + TINY):
+        # state after __init__: with init_filter it is the end of a settling run over the first s0["cur"] draws.  Its error is NOT relative to the
+        # final state (which can be small by chance: |z| = 9.8 where the trajectory has |z| ~ 2500 — false alarm met in the thorough tier,
+        # seed 0, red, f_min = 2.03 Hz) but to the trajectory: running rounding bound of the reference cascade over the settling stretch
+        # (from a zero state: same magnitudes), with the input error inflated by 8*amp*U*|w| per sample = the effect of a <= 4 ulp difference
+        # of the pole (libm vs NumPy exp) entering as dp*y_n at every step, |y_n| <= amp*|w|.
+        tol_z0 = 16 * U * amp * (float(np.max(np.abs(r0["z"]))) if r0["z"].size else 0.0) + TINY
+        if s0["cur"] > 1 and spec["kw"].get("init_filter"):
+            w0 = m["rms"] * np.asarray(xi[:s0["cur"]], dtype=np.float64)
+            _y0, _z0, _ey0, ez0 = ref_cascade([(sc[0], sc[1], sc[2], 0.0) for sc in m["secs"]], w0, (1.0 + 8.0 * amp) * U * np.abs(w0) + TINY)
+            tol_z0 += 2.0 * SAFETY * (float(np.max(ez0)) if np.size(ez0) else 0.0)
+        if not close(s0["z"], r0["z"], 0.0, tol_z0):
             bad.append(f"after __init__: filter state generated {s0['z'].tolist()[:4]} real {r0['z'].tolist()[:4]}")
     if out.shape != real.shape:
         bad.append(f"the requests returned {out.size} samples in the generated code, {real.size} in the real object")
